@@ -9,11 +9,6 @@ points holding arbitrary claims, pins and locks — because the measure `mu` (`M
 -/
 namespace MQ
 
-/-- `k` consecutive steps of thread `t` alone -/
-def soloRun (σ : St) (t : Nat) (inps : Nat → Nat) : Nat → St
-  | 0 => σ
-  | k + 1 => (stepRun (soloRun σ t inps k) t (inps k)).2
-
 def returned (σ : St) (t : Nat) : Prop := ∃ r, (σ.th t).pc = .ret r
 
 /-- is the thread inside one of the three try operations -/
